@@ -25,6 +25,11 @@ def digests_main(props, n, stride, offset, out):
             case = prop.gen(rng, 'quick')
             case['index'] = index
             case['verif_seed'] = 0
+            if 'case_budget' in case:
+                # wall-clock caps bound how much of a case is explored; the
+                # self-test needs the same amount in both interpreters
+                case['case_budget'] = 10**9
+                case['max_points'] = min(case.get('max_points', 12), 12)
             try:
                 v = prop.run(case)
                 res[f'{pid}/{index}'] = [v.digests, sorted(
